@@ -187,8 +187,8 @@ theorem qexport_spec (q : RawQuals) :
         rcases hp with rfl | hp
         · simp only
           rw [sortStrs_of_strict (strSet_strict _)]
-          exact ⟨BioCantor.Proofs.Qual.sortedStrict_of_pairwise (strSet_strict _),
-            BioCantor.Proofs.Qual.sameSet_iff.mpr fun y => strSet_mem _ y⟩
+          exact ⟨BioCantor.Proofs.DigStr.sortedStrict_of_pairwise (strSet_strict _),
+            BioCantor.Proofs.DigStr.sameSet_iff.mpr fun y => strSet_mem _ y⟩
         · exact ih p hp
     exact key (e :: es) p (by simpa using hp)
 
@@ -262,7 +262,8 @@ theorem f_c19f_witness (md5 : List Str → Str) :
       acGuidOf md5 none Frame.none none none [] none []⟩ false = .error .attributeError := rfl
 
 /- FULL STATEMENT (does NOT hold — F-C08f): `parent_dict_roundtrip` for every chromosome parent.
-   `ParentWF (.chrom seq alphabet id)` demands `id ≠ none`; missing: the id-less chromosome parent. -/
+   `ParentWF (.chrom seq alphabet id)` demands `id ≠ none` as long as the switch `chromIdRepaired` is `false`;
+   missing: the id-less chromosome parent.  (With the switch flipped the full statement is what is proved.) -/
 
 /-- F-C08f witness: a whole-chromosome parent WITHOUT sequence id (`seq_to_parent(seq)`, the default) is exported
     with `"sequence_name": None`; the importer then indexes `parent_dict["sequence_name"]` after the null values were
@@ -304,7 +305,7 @@ example : VcWF exVc := exVc_wf
 /-- an exportable collection on a sequence chunk satisfies every hypothesis of `ac_dict_roundtrip` -/
 example : AcWF (fun _ => []) exAc ∧ exAc.bounds = some (10, 14) ∧ exAc.genes ≠ [] := ⟨exAc_wf, rfl, by decide⟩
 
-example : ParentWF (.chrom "ACGT".toList "NT_STRICT".toList (some "chr1".toList)) := ⟨by decide, by decide⟩
+example : ParentWF (.chrom "ACGT".toList "NT_STRICT".toList (some "chr1".toList)) := ⟨by decide, Or.inr (by decide)⟩
 example : ParentWF (.chunk "ACGT".toList "NT_STRICT".toList "chr1".toList 10 14 .plus) := by
   show "ACGT".toList ≠ []; decide
 example : ParentWF (.chunk "ACGT".toList "NT_STRICT".toList "chr1".toList 10 14 .minus) := by
